@@ -170,6 +170,24 @@ def run(run_, ctx):
         hit = [n for d, n in tables if n == want]
         run_.check(bool(hit), "S", o + " Deserialize names", "derived Deserialize of %s has no VARIANTS/FIELDS table equal to %s" % (o, want),
                    detail="Deserialize name table = Serialize names")
+    # the derived Deserialize of the owned family must be plain derive output: a custom hook (`deserialize_with`, `default = "path"`, ...)
+    # could reject or alter what the borrowed family writes.  Generated items live in anonymous consts (`_#n`); they may only call each other
+    # and other crates.
+    gen = [f for f in sc.fns if re.search(r"::owned::_#\d+::", f.canon) or "::owned::_::" in f.canon]
+    hooks = set()
+    for f in gen:
+        for b in f.blocks or []:
+            t = b.get("term") or {}
+            cal = t.get("callee") if t.get("k") == "call" else None
+            if not cal or cal.get("krate") != "postcard_schema":
+                continue
+            for cn in (cal.get("canon"), (cal.get("resolved") or {}).get("canon")):
+                g = sc.by_canon.get(cn) if cn else None
+                if g is not None and not re.search(r"::_(#\d+)?::", g.canon) and (g.impl_trait or "").split("::")[-1] not in ("Deserialize", "Serialize", "Clone", "Default"):
+                    hooks.add((f.canon.split("::deserialize")[0], g.def_))
+    run_.check(bool(gen) and not hooks, "S", "owned Deserialize is plain derive output",
+               "derive-generated (de)serialisation of the owned schema calls hand-written code: %s" % sorted(hooks)[:3] if hooks else "generated impls not found",
+               detail="%d generated functions call only generated code and other crates" % len(gen))
     # ---- F ------------------------------------------------------------------------------------------------
     for b, o in PAIRS:
         fs = [f for f in sc.fns if f.name == "from" and f.impl_trait == "core::convert::From" and (f.impl_self or "") == "schema::owned::" + o]
